@@ -158,6 +158,16 @@ def run(ctx) -> Report:
     nested = element((3,), None, (3,), [element((2,), pb("IdentityPullback"), (2,)), element((), pb("IdentityPullback"), ())])
     nested.attrs["pullback"] = pb("MixedPullback", nested)
     layouts.append(("[[P2^2, P1], P3]  (a mixed sub-element)", dom2, [nested, element((), pb("IdentityPullback"), ())]))
+    # equal sub-elements: a block is selected by its position, not by what its element looks like (equal
+    # but distinct element objects)
+    def p1():
+        e = element((), pb("IdentityPullback"), ())
+        same = lambda o: isinstance(o, Obj) and o.attrs.get("_value_key") == "P1"  # noqa: E731  (elements compare by value)
+        e.attrs.update(_value_key="P1", __eq__=same, __ne__=lambda o: not same(o), __hash__=lambda: 7)
+        return e
+
+    layouts.append(("P1 x P1 (equal sub-elements)", dom2, [p1(), p1()]))
+    layouts.append(("P2^2 x P1 x P1 (equal scalar sub-elements)", dom2, [element((2,), pb("IdentityPullback"), (2,)), p1(), p1()]))
     dom3 = world(3, 2)
     layouts.append(("RT (contravariant, immersed: 2 ref / 3 phys) x P1 x RT", dom3, [element((2,), pb("ContravariantPiola"), (3,)), element((), pb("IdentityPullback"), ()), element((2,), pb("ContravariantPiola"), (3,))]))
     n_blocks = 0
